@@ -488,6 +488,9 @@ func (fr *Frame) loopWrites(li *loopInfo) (keys map[string]bool, all bool) {
 		case *ssa.Call, *ssa.Defer, *ssa.Go:
 			cc := in.(ssa.CallInstruction).Common()
 			if _, isGo := in.(*ssa.Go); isGo {
+				if _, ok := fr.e.L.specs.GhostVars["gostarts"]; ok {
+					keys["X:gostarts"] = true
+				}
 				return
 			}
 			if b, ok := cc.Value.(*ssa.Builtin); ok {
